@@ -151,8 +151,8 @@ func runCall(c call, base string, huge vals.List, deadline, grace time.Duration)
 	}()
 
 	// goroutines that exist before the call do not belong to the evaluation.  A full dump stops
-	// the world, so the set is only re-taken when the number of goroutines changed (a leak).
-	if baseline == nil || runtime.NumGoroutine() != len(baseline) {
+	// the world, so the set is only re-taken when there are more goroutines than it holds (a leak).
+	if baseline == nil || runtime.NumGoroutine() > len(baseline) {
 		baseline = map[int]bool{}
 		for _, g := range goroutines() {
 			baseline[g.id] = true
